@@ -73,6 +73,7 @@ func applyProfile(w *World, p *Profile) {
 	w.CheckTree = p.CheckTree
 	w.CheckFree = p.CheckFree
 	w.CheckLedger = p.CheckLedger
+	w.CheckPins = p.CheckPins
 	w.RecordIO = p.recordIO
 	w.AdvValues = p.AdvValues
 	w.installMonitors()
